@@ -778,8 +778,8 @@ def sql_exact_dao(prog: Program) -> RuleResult:
         raise AnalysisError("SQL-EXACT-DAO: krrood.ormatic.dao.get_dao_class vanished")
     p = f.params[0]
     cmps = [x for x in walk_local(f.node) if isinstance(x, ast.Compare) and any(isinstance(y, ast.Call) and call_name(y) == "original_class" for y in ast.walk(x))]
-    if not cmps:
-        raise AnalysisError("SQL-EXACT-DAO: get_dao_class no longer compares a DAO's original class")
+    if not any(isinstance(y, ast.Call) and call_name(y) == "original_class" for y in walk_local(f.node)):
+        raise AnalysisError("SQL-EXACT-DAO: get_dao_class no longer consults a DAO's original class")
     # what the parameter may be re-bound to: its alternative mapping only
     rebinds = [x.value for x in walk_local(f.node) if isinstance(x, ast.Assign) and any(isinstance(t, ast.Name) and t.id == p for t in x.targets)]
     rebinds += [x.iter for x in walk_local(f.node) if isinstance(x, (ast.For, ast.comprehension)) and any(isinstance(t, ast.Name) and t.id == p for t in ast.walk(x.target))]
@@ -794,7 +794,9 @@ def sql_exact_dao(prog: Program) -> RuleResult:
     for y in walk_local(f.node):
         if (isinstance(y, ast.Attribute) and y.attr in ("__mro__", "__bases__", "__base__")) or (isinstance(y, ast.Call) and call_name(y) in ("mro", "issubclass", "getmro")):
             why = why or f"the lookup walks the class hierarchy ({src(y)[:40]})"
-    r.check(why is None, "get_dao_class#exact-class", site(f), src(cmps[0])[:80], "the DAO whose original class is exactly the given class (or its alternative mapping)",
+    if not cmps:
+        why = why or "the DAO's original class is not compared with the given class"
+    r.check(why is None, "get_dao_class#exact-class", site(f), src(cmps[0])[:80] if cmps else "", "the DAO whose original class is exactly the given class (or its alternative mapping)",
             f"{why}: a class without a DAO of its own (an unmapped subclass of a mapped class) is answered from the table of its base - eql_to_sql accepts the query and returns "
             "the base class's rows, in memory it has no solutions over persisted objects; to_dao stores such an object as an instance of the base")
     return r
